@@ -366,9 +366,62 @@ func segOp(segs []seg) string {
 func parseSegs(op string) []seg {
 	var segs []seg
 	for _, tok := range strings.Fields(op)[2:] {
+		if tok[0] == 'o' {
+			continue
+		}
 		segs = append(segs, seg{tok[0], unhx(tok[2:])})
 	}
 	return segs
+}
+
+// intactStream rebuilds, from an op whose corrupted frames are followed by their intact form
+// (o:), the stream as it was before the corruption; ok = every victim has one.
+func intactStream(op string) (bs []byte, ok bool) {
+	toks := strings.Fields(op)[2:]
+	ok = false
+	for i, tok := range toks {
+		switch {
+		case tok[0] == 'o':
+		case tok[0] == 'c':
+			if i+1 >= len(toks) || toks[i+1][0] != 'o' {
+				return nil, false
+			}
+			bs = append(bs, unhx(toks[i+1][2:])...)
+			ok = true
+		default:
+			bs = append(bs, unhx(tok[2:])...)
+		}
+	}
+	return bs, ok
+}
+
+// oracleC12 is the segment oracle plus the property's own comparison for streams that carry the
+// intact form of their victims: every message other than the victim is the message the
+// uncorrupted stream yields - type, bytes, error text, timestamp and the two time lines.  (Only
+// emitted for streams whose MSM timestamps do not decrease, where the victim's own contribution
+// to the handler's time state cannot matter.)
+func oracleC12(op string, o *Obs) string {
+	if msg := oracleSegs(op, o); msg != "" {
+		return msg
+	}
+	intact, ok := intactStream(op)
+	if !ok {
+		return ""
+	}
+	d := o.Data.(*streamRun)
+	ref := runHandleMessages(unixms(strings.Fields(op)[1]), intact, 0, 0)
+	if ref.Panic != "" || ref.Hung || len(ref.Msgs) != len(d.Msgs) {
+		return fmt.Sprintf("the uncorrupted stream yields %d messages, the corrupted one %d", len(ref.Msgs), len(d.Msgs))
+	}
+	for i := range d.Msgs {
+		if !bytes.Equal(d.Msgs[i].RawData, ref.Msgs[i].RawData) {
+			continue // the victim
+		}
+		if a, b := canonMsg(&d.Msgs[i]), canonMsg(&ref.Msgs[i]); a != b {
+			return fmt.Sprintf("message %d differs from the one the uncorrupted stream yields: %s, without the corruption %s", i, clip(a, 300), clip(b, 300))
+		}
+	}
+	return ""
 }
 
 // expectedOf is the property's statement: the segments, adjacent junk merged.
@@ -573,6 +626,70 @@ func genC12(c *Ctx, emit func(class, op string)) {
 	for i := 0; i < c.N(60, 600); i++ {
 		emit("several-victims", segOp(randSegs(c, true)))
 	}
+	// MSM frames with non-decreasing timestamps, the victim's timestamp or type bits altered to
+	// another plausible value; the intact frame rides along (o:) for the comparison of the
+	// neighbours' derived times.
+	for i := 0; i < c.N(80, 800); i++ {
+		n := 3 + r.Intn(5)
+		v := r.Intn(n)
+		ts := map[int]uint{}
+		var toks []string
+		for k := 0; k < n; k++ {
+			ci := r.Intn(len(constels))
+			if r.Intn(2) == 0 {
+				ci = 0
+			}
+			if _, seen := ts[ci]; !seen {
+				ts[ci] = uint(r.Intn(40000000))
+				if ci == 1 { // Glonass: day of week and millisecond of day
+					ts[ci] = uint(r.Intn(7))<<27 | uint(r.Intn(40000000))
+				}
+			}
+			ts[ci] += uint(r.Intn(30000))
+			f := msmFrameWithTs(constels[ci].types[r.Intn(2)], uint(r.Intn(4096)), ts[ci])
+			if k != v {
+				toks = append(toks, "f:"+hx(f))
+				if r.Intn(4) == 0 {
+					toks = append(toks, "j:"+hx(junkRun(r, 1+r.Intn(12))))
+				}
+				continue
+			}
+			var g []byte
+			for {
+				g = append([]byte{}, f...)
+				switch r.Intn(4) {
+				case 0: // a later time of the week
+					put30(g, ts[ci]+uint(1+r.Intn(500000000)))
+				case 1: // an earlier one
+					put30(g, uint(r.Intn(int(ts[ci]&0x7ffffff)+1)))
+				case 2: // another constellation's MSM type
+					t2 := constels[r.Intn(len(constels))].types[r.Intn(2)]
+					g[3], g[4] = byte(t2>>4), byte(t2<<4)|g[4]&0x0f
+				default:
+					g = corruptFrame(r, f)
+				}
+				if !bytes.Equal(g, f) && !bytes.Equal(mkFrame(g[3:len(g)-3]), g) { // differs, and its CRC no longer matches
+					break
+				}
+			}
+			toks = append(toks, "c:"+hx(g), "o:"+hx(f))
+		}
+		emit("monotone-msm-times", "streamseg "+defaultStart+" "+strings.Join(toks, " "))
+	}
+}
+
+// put30 overwrites the 30-bit MSM timestamp (payload bits 24..53) of a frame.
+func put30(f []byte, ts uint) {
+	ts &= 0x3fffffff
+	for b := 0; b < 30; b++ {
+		bit := 24 + 24 + b // leader + type and station
+		mask := byte(0x80) >> uint(bit%8)
+		if ts>>(29-uint(b))&1 == 1 {
+			f[bit/8] |= mask
+		} else {
+			f[bit/8] &^= mask
+		}
+	}
 }
 
 func init() {
@@ -605,8 +722,10 @@ func init() {
 	props["C12"] = &Prop{
 		Rule: "op streamseg with corrupted frames (c:): one victim per stream (1-bit flips, bursts, 0xD3 written into payload/CRC, CRC byte overwritten, " +
 			"scattered bytes; leader untouched; CRC verified to mismatch) plus the intact stream, optional truncated tail, and streams with several victims; " +
+			"MSM streams with non-decreasing timestamps whose victim has its timestamp or type bits altered to another plausible value, the neighbours compared in full " +
+			"(type, bytes, error, timestamp, time lines) with the run of the uncorrupted stream; " +
 			"non-trivial = contains a corrupted frame; distinct = distinct op line",
-		Gen: genC12, Oracle: oracleSegs,
+		Gen: genC12, Oracle: oracleC12,
 		NonTrivial: func(op string, o *Obs) bool { return strings.Contains(op, " c:") },
 	}
 }
